@@ -87,7 +87,10 @@ def run(facts, rep, tier):
             continue
         par = anc[-1] if anc else {}
         closures.append((n, par, anc))
-    rep.floor("C10.D2", "closures over table rows", len(closures), 4)
+    # the bounds-driven search is decided by evaluation whatever its shape (D7); the closure-shaped rules below (D2/D3) add
+    # path-level explanations when the search is written as closures over the rows, and are not required otherwise
+    evaluated = run_d7_eval(facts, rep, c, h, table, MIN, MAX)
+    rep.floor("C10.D2", "closures over table rows", len(closures), 1 if evaluated else 4)
     for idx, (clo, par, anc) in enumerate(closures):
         pats = clo["params"][0]["pats"]
         names = [p["name"] if p.get("k") == "bind" else None for p in pats]
@@ -134,7 +137,8 @@ def run(facts, rep, tier):
                                         lo_names.add(b_["name"])
                         ok = any(re.search(r"\((%s) Eq 1\.?0?\)|(%s) Eq Some\(1" % ("|".join(map(re.escape, lo_names)), "|".join(map(re.escape, lo_names))), g[1]) for g in conds)
                         rep.ob("C10.D3", "nonzero-needs-min-1:%s" % cell, ok, "NonZero column used under `%s`" % (conds[-1][1] if conds else "no condition"), clo.get("sp"))
-    run_d7(facts, rep, c, h, rows, closures, MIN, MAX)
+    if not evaluated:
+        run_d7(facts, rep, c, h, rows, closures, MIN, MAX)
     # the by-format lookup
     finds = [(clo, par) for (clo, par, anc) in closures if par.get("name") == "find"]
     if rep.floor("C10.D2", "by-format lookup (find over the table)", len(finds), 1):
@@ -169,77 +173,89 @@ def run(facts, rep, tier):
                         if " Or " in cs and " Lt " in cs and " Gt " in cs and nm[3] in cs and nm[4] in cs and "InvalidValue" in src(x["then"]):
                             ok5 = True
                     rep.ob("C10.D5", "format-default-range", ok5, "`if default < imin || default > imax { return Err(InvalidValue) }`" if ok5 else "the default is not range-checked against the format's limits with an InvalidValue error", n.get("sp"))
-    # D5b: the general default check
+    # D5b: the general default check, decided by evaluation (any shape): the statement that compares the schema's default
+    # with the effective bounds must answer InvalidValue exactly when the default lies outside them, and no statement after
+    # it may still assign the bounds
+    import minirust as mr
+    from lib import top_stmts
+    tops = top_stmts(h)
+    tbl_let = [n for n, _ in nodes(h["body"], "let") if n.get("init") is not None and n["pat"].get("k") == "bind" and contains_node(n["init"], table)]
+    tname = tbl_let[0]["pat"]["name"] if tbl_let else None
+
+    def assigns_bounds(st):
+        out = []
+        for x, xa in walk(st):
+            if x.get("k") in ("assign", "assignop"):
+                l = strip_refs(x["l"])
+                if l.get("k") == "path" and l.get("res") == "local" and l["path"] in (MIN, MAX):
+                    out.append((x, xa))
+        return out
+    checks = [st for st in tops if ".default" in src(st) and "InvalidValue" in src(st) and (reads(st, MIN) or reads(st, MAX))
+              and not assigns_bounds(st) and not (tname and reads(st, tname))]
     ok5b = False
-    for n, _ in nodes(h["body"], "match"):
-        if n.get("src") == "try" and "ok_or(Error::InvalidValue)" in src(n):
-            inner = [m for m, _ in nodes(n, "match") if m.get("src") == "normal" and m["scrut"].get("k") == "tup" and len(m["scrut"]["es"]) == 3]
-            if inner:
-                m = inner[0]
-                table5 = {}
-                for arm in m["arms"]:
-                    pk, g, b = norm_arm(arm)
-                    table5[pk] = (g, b)
-                want = {
-                    "(Some(_),None,None)": "",
-                    "(Some($0),None,Some($1))": "($0 Le $1)",
-                    "(Some($0),Some($1),None)": "($0 Ge $1)",
-                    "(Some($0),Some($1),Some($2))": "(($0 Ge $1) And ($0 Le $2))",
-                }
-                good = True
-                for pk, g in want.items():
-                    got = table5.get(pk)
-                    if not got or got[0] != g or not got[1].startswith("Some("):
-                        good = False
-                wild = table5.get("_")
-                if not wild or wild[1] != "None":
-                    good = False
-                ok5b = good and "as_f64()" in src(m["scrut"]["es"][0])
-                # the bounds compared with the default are the final ones: no assignment to them after the test
-                from lib import scope_binding, top_stmts
-                anc_of = {id(x): a for x, a in walk(h["body"])}
-                tops = top_stmts(h)
-                def top_index(x):
-                    for i, t in enumerate(tops):
-                        if t is x or contains_node(t, x):
-                            return i
-                    return -1
-                bl = []
-                for e in m["scrut"]["es"][1:]:
-                    e = strip_refs(e)
-                    if e.get("k") == "path" and e.get("res") == "local":
-                        b = scope_binding(h, anc_of[id(e)], e["path"], e)
-                        if b and b[0] == "let":
-                            bl.append(b[1] if b[2] is None else (b[1], b[2]))
-                late = []
-                for x, xa in walk(h["body"]):
-                    if x.get("k") in ("assign", "assignop"):
-                        l = strip_refs(x["l"])
-                        if l.get("k") == "path" and l.get("res") == "local":
-                            b = scope_binding(h, xa, l["path"], x)
-                            if b and b[0] == "let" and any((t is b[1]) if not isinstance(t, tuple) else (t[0] is b[1] and t[1] == b[2]) for t in bl):
-                                if top_index(x) >= top_index(m):
-                                    late.append(x)
-                # who may write the effective bounds: only the fill from the format's row when the schema gave none
-                n_asg = 0
-                for x, xa in walk(h["body"]):
-                    if x.get("k") in ("assign", "assignop"):
-                        l = strip_refs(x["l"])
-                        if l.get("k") == "path" and l.get("res") == "local":
-                            b = scope_binding(h, xa, l["path"], x)
-                            if b and b[0] == "let" and any((t is b[1]) if not isinstance(t, tuple) else (t[0] is b[1] and t[1] == b[2]) for t in bl):
-                                n_asg += 1
-                                conds = [g for g in guards(xa, x) if g[0] == "if"]
-                                rhs = src(x["r"])
-                                okw = x.get("k") == "assign" and re.fullmatch(r"Some\(\*?\w+\)", rhs) is not None and any(re.fullmatch(r"%s\.is_none\(\)" % re.escape(l["path"]), g[1]) for g in conds)
-                                rep.ob("C10.D6", "bound-assignment-is-format-fill#%d" % n_asg, okw,
-                                       "`%s` under `%s.is_none()`: a missing bound is filled from the format's row" % (src(x)[:40], l["path"]) if okw else
-                                       "the effective bound is rewritten by `%s`: after exclusive bounds were turned into inclusive ones by +/-1 any further adjustment (rounding, clamping) can exclude integers the schema admits, so NonZero or a narrower type is chosen wrongly" % src(x)[:80], x.get("sp"))
-                rep.ob("C10.D5", "default-tested-against-final-bounds", len(bl) == 2 and not late,
-                       "every assignment to the two bounds precedes the default-range test" if len(bl) == 2 and not late else
-                       "the bounds are still assigned (`%s`) after the default was compared with them: a default outside the range implied by the format is not reported" % (src(late[0]) if late else "bounds not found"), (late[0] if late else m).get("sp"))
-                rep.ob("C10.D5", "default-range-table", ok5b, "match (default.as_f64(), min, max) accepts only min <= value <= max, else InvalidValue" if ok5b else "default range table differs: %s" % table5, m.get("sp"))
-    rep.floor("C10.D5", "general default range check", 1 if ok5b or any(o["key"].endswith("default-range-table") for o in rep.obligations) else 0, 1)
+    if rep.floor("C10.D5", "general default range check", len(checks), 1):
+        st = checks[0]
+        m5 = mr.Machine(c, hooks={"as_f64": lambda mach, v: mr.some(v[1]) if isinstance(v, tuple) and v and v[0] == "json" else mr.NONE,
+                                  "is_number": lambda mach, v: isinstance(v, tuple) and v and v[0] == "json"})
+        mparam = None
+        for i_, t_ in enumerate(c.fns[h["fn"]]["inputs"]):
+            if "Metadata" in t_ and i_ < len(h.get("params", [])) and h["params"][i_].get("k") == "bind":
+                mparam = h["params"][i_]["name"]
+        bad = None
+        nsc = 0
+        if mparam is None:
+            bad = "the metadata parameter was not found"
+        else:
+            for lo in (None, 0.0, 10.0):
+                for hi in (None, 10.0, 20.0):
+                    if lo is not None and hi is not None and lo > hi:
+                        continue
+                    probes = {5.0, -1.0, 25.0}
+                    for b_ in (lo, hi):
+                        if b_ is not None:
+                            probes |= {b_ - 1.0, b_, b_ + 1.0}
+                    for x in sorted(probes):
+                        meta = mr.some(("struct", "Metadata", {"default": mr.some(("json", x)), "title": mr.NONE, "description": mr.NONE}))
+                        env = mr.Env(init={mparam: meta, MIN: mr.some(lo) if lo is not None else mr.NONE, MAX: mr.some(hi) if hi is not None else mr.NONE})
+                        m5.fuel = 100000
+                        try:
+                            try:
+                                r_ = m5.ev(st if st.get("k") != "let" else st["init"], env)
+                                err = isinstance(r_, tuple) and r_ and r_[0] == "Err"
+                            except mr.Return as ret:
+                                err = isinstance(ret.value, tuple) and ret.value and ret.value[0] == "Err"
+                        except mr.Unknown as e_:
+                            bad = "not evaluable (%s)" % e_
+                            break
+                        nsc += 1
+                        want = (lo is not None and x < lo) or (hi is not None and x > hi)
+                        if err != want:
+                            bad = "for minimum %s / maximum %s a default of %g is %s" % ("absent" if lo is None else "%g" % lo, "absent" if hi is None else "%g" % hi, x,
+                                                                                        "accepted although it lies outside the range" if want else "rejected although it lies inside the range")
+                            break
+                    if bad:
+                        break
+                if bad:
+                    break
+        ok5b = bad is None
+        rep.ob("C10.D5", "default-range-table", ok5b, "evaluated on %d boundary scenarios: InvalidValue exactly when the default lies outside [min, max]" % nsc if ok5b else
+               "the default range check is wrong: %s" % bad, st.get("sp"))
+        ix = [i_ for i_, t_ in enumerate(tops) if t_ is st][0]
+        late = [x for t_ in tops[ix + 1:] for x, _ in assigns_bounds(t_)]
+        rep.ob("C10.D5", "default-tested-against-final-bounds", not late,
+               "every assignment to the two bounds precedes the default-range test" if not late else
+               "the bounds are still assigned (`%s`) after the default was compared with them: a default outside the range implied by the format is not reported" % src(late[0])[:60], (late[0] if late else st).get("sp"))
+    # who may write the effective bounds: only the fill from the format's row when the schema gave none
+    n_asg = 0
+    for x, xa in assigns_bounds(h["body"]):
+        n_asg += 1
+        l = strip_refs(x["l"])
+        conds = [g for g in guards(xa, x) if g[0] == "if"]
+        rhs = src(x["r"])
+        okw = x.get("k") == "assign" and re.fullmatch(r"Some\(\*?\w+\)", rhs) is not None and any(re.fullmatch(r"%s\.is_none\(\)" % re.escape(l["path"]), g[1]) for g in conds)
+        rep.ob("C10.D6", "bound-assignment-is-format-fill#%d" % n_asg, okw,
+               "`%s` under `%s.is_none()`: a missing bound is filled from the format's row" % (src(x)[:40], l["path"]) if okw else
+               "the effective bound is rewritten by `%s`: after exclusive bounds were turned into inclusive ones by +/-1 any further adjustment (rounding, clamping) can exclude integers the schema admits, so NonZero or a narrower type is chosen wrongly" % src(x)[:80], x.get("sp"))
 
     # ------------------------------------------------------------ D4 fallbacks
     tail = block_last(h["body"])
@@ -400,6 +416,89 @@ def ev(e, env):
     if k == "call" and e.get("res") == "ctor" and (e.get("fn") or "").endswith("::Some"):
         return ("some", ev(e["args"][0], env))
     raise Unknown(str(k))
+
+
+def run_d7_eval(facts, rep, c, h, table, MIN, MAX):
+    """The bounds-driven search, whatever its shape: the expression bound by the `let` that searches the format table is
+    evaluated (rules/minirust.py, over the fact tree) for every boundary scenario of (minimum, maximum); each answer must
+    be a type that contains the schema's range, a NonZero type only when zero is excluded. Returns False when no such `let`
+    is found (the closure-shaped rule then applies)."""
+    import minirust as mr
+    from lib import top_stmts
+    tbl_let = [n for n, _ in nodes(h["body"], "let") if n.get("init") is not None and n["pat"].get("k") == "bind" and contains_node(n["init"], table)]
+    if not tbl_let:
+        return False
+    tname = tbl_let[0]["pat"]["name"]
+    # the statement whose value is the search: a `let` of an Option<String> that runs find_map and reads the table
+    cands = []
+    for st in top_stmts(h):
+        if st.get("k") == "let" and st.get("init") is not None and any(x.get("k") == "mcall" and x["name"] == "find_map" for x, _ in walk(st["init"])) \
+                and reads(st["init"], tname) and "Option<" in (c.ty(st["init"].get("ty")) or "") and "String" in (c.ty(st["init"].get("ty")) or ""):
+            cands.append(st)
+    if len(cands) != 1:
+        return False
+    init = cands[0]["init"]
+    m = mr.Machine(c)
+    try:
+        rows_v = m.ev(tbl_let[0]["init"], mr.Env())
+    except mr.Unknown as e_:
+        rep.ob("C10.D7", "search-evaluable:table", False, "the format table is not a literal the evaluator can read (%s)" % e_, table.get("sp"))
+        return True
+    tab = []
+    for r in rows_v:
+        fmt, ty, nz, lo, hi = r[1]
+        tab.append({"fmt": fmt, "ty": ty, "nz": nz, "lo": lo, "hi": hi})
+    I64 = INT_LIMITS["i64"]
+    n_eval = 0
+    for has_min in (False, True):
+        for has_max in (False, True):
+            if not has_min and not has_max:
+                continue
+            cell = "(%s,%s)" % ("Some" if has_min else "None", "Some" if has_max else "None")
+            lows = sorted({r_["lo"] for r_ in tab} | {1.0, 0.0, -1.0, 2.0}) if has_min else [None]
+            highs = sorted({r_["hi"] for r_ in tab} | {1.0, 100.0, 255.0, 256.0}) if has_max else [None]
+            bad = None
+            for lo in lows:
+                for hi in highs:
+                    if lo is not None and hi is not None and lo > hi:
+                        continue
+                    env = mr.Env(init={tname: rows_v, MIN: mr.some(lo) if lo is not None else mr.NONE, MAX: mr.some(hi) if hi is not None else mr.NONE})
+                    try:
+                        m.fuel = 200000
+                        res = m.ev(init, env)
+                        n_eval += len(tab)
+                    except mr.Unknown as e_:
+                        rep.ob("C10.D7", "search-evaluable:%s" % cell, False, "the search uses a construct the evaluator does not model (%s): review the rule" % e_, init.get("sp"))
+                        bad = "unknown"
+                        break
+                    except mr.Return:
+                        bad = "the search returns from the function for minimum %s / maximum %s" % (lo, hi)
+                        break
+                    if not (isinstance(res, tuple) and res and res[0] == "Some"):
+                        continue
+                    chosen = res[1]
+                    if chosen in INT_LIMITS:
+                        tlo, thi = INT_LIMITS[chosen]
+                    else:
+                        mz = re.fullmatch(r"::std::num::NonZeroU(8|16|32|64)", chosen if isinstance(chosen, str) else "")
+                        if not mz:
+                            bad = "bound (%s, %s) selects `%s`, which is not a type of the table" % (lo, hi, chosen)
+                            break
+                        tlo, thi = 1.0, float(2 ** int(mz.group(1)) - 1)
+                    need_lo = lo if lo is not None else I64[0]
+                    need_hi = hi if hi is not None else I64[1]
+                    if tlo > need_lo or thi < need_hi:
+                        bad = "for minimum %s / maximum %s the search answers `%s` (range %s..=%s): admitted values %s are not representable" % (
+                            "absent" if lo is None else "%g" % lo, "absent" if hi is None else "%g" % hi, chosen, "%g" % tlo, "%g" % thi,
+                            "below %g" % tlo if tlo > need_lo else "above %g" % thi)
+                        break
+                if bad:
+                    break
+            if bad != "unknown":
+                rep.ob("C10.D7", "search-answers-a-wide-enough-type:%s" % cell, bad is None,
+                       "evaluated on %d rows x %d boundary scenarios: every answer contains the schema's range" % (len(tab), len(lows) * len(highs)) if bad is None else bad, init.get("sp"))
+    rep.floor("C10.D7", "row evaluations of the bounds-driven searches", n_eval, 200)
+    return True
 
 
 def run_d7(facts, rep, c, h, rows, closures, MIN, MAX):
